@@ -392,7 +392,7 @@ func opensslVerifyCMS(dir string, der []byte, contentFile string, id int) string
 		return "fail:" + err.Error()
 	}
 	defer os.Remove(p)
-	args := []string{"cms", "-verify", "-noverify", "-binary", "-inform", "DER", "-in", p, "-out", os.DevNull}
+	args := []string{"cms", "-verify", "-noverify", "-binary", "-inform", "DER", "-in", p, "-out", os.DevNull, "-certfile", filepath.Join(dir, "allcerts.pem")}
 	if contentFile != "" {
 		args = append(args, "-content", filepath.Join(dir, contentFile))
 	}
@@ -793,10 +793,12 @@ func runBuilderCase(c *core.Ctx, dir string, keys map[string]keyMat, cs *bCase, 
 		cs.Token = hex.EncodeToString(tsa.lastTok)
 		cs.Stamped = hex.EncodeToString(ts.Raw)
 		if c.Tier == "thorough" {
-			cs.VerifyCMS = opensslVerifyCMS(dir, ts.Raw, "", 100000+cs.ID)
+			if cs.Mode == "data" { // OpenSSL's CMS code only understands OCTET STRING content
+				cs.VerifyCMS = opensslVerifyCMS(dir, ts.Raw, "", 100000+cs.ID)
+			}
 			// the embedded token, located with the generator's own walker: last element of the signer info, [1]
 			if tok := embeddedToken(ts.Raw); tok != nil {
-				cs.VerifyTS = opensslVerifyTS(dir, tok, tsa.lastDig, "chain2.pem", 100000+cs.ID)
+				cs.VerifyTS = opensslVerifyTS(dir, tok, tsa.lastDig, "tsacerts.pem", 100000+cs.ID)
 			} else {
 				cs.VerifyTS = "fail:embedded token not found"
 			}
@@ -883,7 +885,7 @@ func runRoundTrips(c *core.Ctx) error {
 			case "cms":
 				cs.Verify = opensslVerifyCMS(dir, out, s.Content, id)
 			case "tst":
-				cs.Verify = opensslVerifyTS(dir, out, s.Query, "chain2.pem", id)
+				cs.Verify = opensslVerifyTS(dir, out, s.Query, "tsacerts.pem", id)
 			}
 		}
 		emit(cs)
